@@ -246,7 +246,7 @@ def _role_ok(text, V, orig, bit, traitd, atoms_true):
     return False
 
 
-@rule("C02.prefilter", ["C02", "C01", "C08", "C12"],
+@rule("C02.prefilter", ["C02", "C01", "C08", "C12", "C11", "C16", "C20"],
       "setattr_trait/setattr_event/getattr_trait: what is stored, what is "
       "compared for identity and what is passed to the notifiers as old/new")
 def prefilter(ctx, res):
